@@ -386,16 +386,29 @@ def t_index_formula(sess, system, bins):
 
         def hist(orientations, system_, bins_=None):
             calls["hist"].append((orientations, system_, bins_))
+            if system_ is not sysm:  # the earlier calls for the other lattice systems: their own histogram over their own range
+                tm = stats._max_misorientation(system_)
+                return sarr(np.array([R(Fraction(k, tm))] + [R(0)] * (k - 1), dtype=object)), sarr(np.array([R(Fraction(tm * i, k)) for i in range(k + 1)], dtype=object))
             return sarr(np.array(cnt, dtype=object)), sarr(np.array(edges, dtype=object))
 
         def theory(low, high, system_):
-            v = c.ufs.generic("rtheory", R(low), R(high))
+            v = c.ufs.generic(f"rtheory_{system_.name}", R(low), R(high))  # the theoretical density is a function of the lattice system too
             c.assume((R(v) >= 0).z3())
             calls["theory"].append((low, high, system_, v))
             return v
 
         A = object()
         with patched((stats, "misorientation_hist", hist), (stats, "misorientations_random", theory)):
+            # the index of other textures, for every other lattice system (same number of bins), is computed first in the same
+            # process: nothing such a call leaves behind (a memoised theoretical histogram, say) may reach this one
+            for other in geo.LatticeSystem:
+                if other is not sysm:
+                    try:
+                        diag.misorientation_index(object(), other)
+                    except AssertionError:
+                        pass
+            calls["hist"].clear()
+            calls["theory"].clear()
             M = diag.misorientation_index(A, sysm)
         return A, tmax, cnt, edges, M, list(calls["hist"]), list(calls["theory"])
 
